@@ -59,6 +59,9 @@ def load(code: str):
         compiled = compile(code, name, "exec")
     except SyntaxError as e:
         raise LoadError("compile", e, detail=(e.text or "")[:200])
+    except (ValueError, RecursionError, MemoryError, OverflowError) as e:
+        # text that is not even encodable source (unpaired surrogate -> UnicodeEncodeError, NUL byte -> ValueError) or that the compiler gives up on
+        raise LoadError("compile", e)
     mod = types.ModuleType(name)
     sys.modules[name] = mod
     try:
